@@ -13,7 +13,7 @@ use crate::gse_standard::{
     COMPLETE_PKT, CRC_LEN, END_PKT, FIRST_PKT, FIXED_HEADER_LEN, FRAG_ID_LEN, GSE_LEN_MASK,
     H_LEN_MASK, INTERMEDIATE_PKT, LABEL_3_B, LABEL_3_B_LEN, LABEL_6_B, LABEL_6_B_LEN,
     LABEL_BROADCAST, LABEL_REUSE, LABEL_TYPE_MASK, PROTOCOL_LEN, SECOND_RANGE_PTYPE,
-    START_END_MASK, TOTAL_LENGTH_LEN,
+    START_END_MASK, TOTAL_LENGTH_LEN, TOTAL_LEN_MAX,
 };
 use crate::header_extension::{
     optionnal_extension_data_size_from_hlen, Extension, MandatoryHeaderExt,
@@ -741,6 +741,13 @@ impl<T: GseDecapMemory, C: CrcCalculator, MHEM: MandatoryHeaderExtensionManager>
                 return Err((DecapError::ErrorMemory(err), pkt_len));
             }
             return Err((DecapError::ErrorSizePduBuffer, pkt_len));
+        }
+        // the reassembled pdu can not be longer than what a 16 bits total length announces
+        if decap_context.pdu_len as usize + calculed_pdu_len > TOTAL_LEN_MAX {
+            if let Err(err) = self.memory.provision_storage(pdu) {
+                return Err((DecapError::ErrorMemory(err), pkt_len));
+            }
+            return Err((DecapError::ErrorTotalLength, pkt_len));
         }
         pdu_buffer[..calculed_pdu_len].copy_from_slice(&buffer[offset..offset + calculed_pdu_len]);
 
